@@ -605,6 +605,12 @@ def responseMatcher (allKeys : List Str) (status : Nat) (linkKeys : List Str) : 
   if linkKeys.all (fun k => (responseFilter k allKeys status).isSome) then some (firstMatch allKeys status linkKeys)
   else none
 
+/-- the call site in `create_state_machine`: the filters of an operation's link keys are built against ALL response
+    keys the operation documents (`tuple(operation.definition.raw["responses"])`), with or without links; the links are
+    visited in document order.  `responses` = (key, has links?) in document order -/
+def operationMatcher (responses : List (Str × Bool)) (status : Nat) : Option (Option Str) :=
+  responseMatcher (responses.map (·.1)) status ((responses.filter (·.2)).map (·.1))
+
 /-! ## OpenApiLink: parameters, extraction, step input -/
 
 structure Param where
